@@ -120,6 +120,7 @@ func c12(r *Run) {
 	c12DeepNest(r)
 	c12Branches(r)
 	c12ModeHistory(r)
+	parseVerdictStable(r, "c12:")
 	parseFileRel(r, "")
 	c12Keywords(r)
 	c12Totality(r)
